@@ -10,6 +10,7 @@ import Hive.Proofs.EventsRelink
 import Hive.Proofs.EventsMaxN
 import Hive.Spec.Events
 import Hive.Gen.C15_Skel
+import Hive.Gen.C15_Twins
 /-!
 # C15 — events, promises and notifiers deliver exactly the right calls
 
@@ -954,6 +955,43 @@ theorem C15_skeleton_triggerSettings_MaxTriggerCountReached : skel_triggerSettin
 theorem C15_skeleton_type_triggerSettings : skel_type_triggerSettings =
     ["struct", "workerPool *workerpool.WorkerPool", "triggerCount atomic.Uint64", "maxTriggerCount uint64",
       "preTriggerFunc any"] := by decide
+
+/-- **Uniformity of the arity twins.**  `events.go` holds ten hand-expanded twins (`Event`,
+`Event1` … `Event9`).  With the argument list `arg1, …, argN` (in this order) and the type list
+normalised, the `Trigger` and `LinkTo` bodies of all ten are identical to `Event1`'s — the twin the
+models, theorems and most of the harness are about — and `Event1`'s are the ones written here. -/
+theorem C15_skeleton_twins_uniform :
+    Hive.Gen.C15Twins.twins_Trigger = List.replicate 10 Hive.Gen.C15Twins.twin_Trigger_1 ∧
+    Hive.Gen.C15Twins.twins_LinkTo = List.replicate 10 Hive.Gen.C15Twins.twin_LinkTo_1 ∧
+    Hive.Gen.C15Twins.twin_Trigger_1 =
+  ["{",
+    "if e.currentTriggerExceedsMaxTriggerCount() {",
+    "return",
+    "}",
+    "e.hooks.ForEach(func(_ uint64, hook *Hook[func(TYPES)]) bool {",
+    "if hook.currentTriggerExceedsMaxTriggerCount() {",
+    "hook.Unhook()",
+    "return true",
+    "}",
+    "if e.preTriggerFunc != nil {",
+    "e.preTriggerFunc(ARGS)",
+    "}",
+    "if hook.preTriggerFunc != nil {",
+    "hook.preTriggerFunc(ARGS)",
+    "}",
+    "if workerPool := hook.WorkerPool(); workerPool != nil {",
+    "workerPool.Submit(func() { hook.trigger(ARGS) })",
+    "} else {",
+    "hook.trigger(ARGS)",
+    "}",
+    "return true",
+    "})",
+    "}"] ∧
+    Hive.Gen.C15Twins.twin_LinkTo_1 =
+  ["{",
+    "e.linkTo(target, e.Trigger)",
+    "}"] := by
+  decide
 
 end skeletons
 
